@@ -197,9 +197,15 @@ pub fn check_one(sh: &mut Shard, a: &IG, lat: &Lat, verbose: bool) {
             }
         }
     }
-    // ---------------- Delaunay family (default snap radius is an absolute 1e-4: lattice spacing must be >= 1)
-    if lat.sh >= 0 && lat.shear == 0 {
-        let cfg = || DelaunayTriangulationConfig::default();
+    // ---------------- Delaunay family. The snap radius is an ABSOLUTE distance (default 1e-4): the default
+    // configuration is used while the lattice spacing 2^sh is at least 2^-12 = 2.4e-4 (no two distinct vertices
+    // within the radius); below that, and for one input in three at any scale, an explicit radius of a quarter of
+    // the spacing.
+    if lat.shear == 0 {
+        let explicit = lat.sh < -12 || a.n_segments() % 3 == 0;
+        let radius = 0.25 * crate::q::pow2(lat.sh);
+        sh.class(if explicit { "delaunay:explicit_snap_radius(spacing/4)" } else { "delaunay:default_snap_radius" });
+        let cfg = || if explicit { DelaunayTriangulationConfig { snap_radius: radius } } else { DelaunayTriangulationConfig::default() };
         let run3 = |which: u8| -> Result<Result<Vec<Triangle<f64>>, String>, String> {
             call(|| match (&g, which) {
                 (geo::Geometry::Polygon(p), 0) => TriangulateDelaunay::constrained_triangulation(p, cfg()).map_err(|e| format!("{e:?}")),
